@@ -1,5 +1,5 @@
 #!/usr/bin/env python3
-"""Translator for the pure integer functions of the decoder: Rust source text -> terms of `Adsb.MiniRust` (Lean).
+"""Translator for the pure integer functions of the decoder: Rust source text -> Lean definitions (`Gen/Fns.lean`).
 
 Handles exactly the fragment those functions are written in (it fails closed on anything else, which the check reports as a broken
 obligation): `let [mut] x [: T] = e;`, `x = e;`, `x op= e;`, `if c {..} [else if ..] [else {..}]`, `if let Ok(x) = f(e) {..} else {..}`,
@@ -77,7 +77,7 @@ class P:
             b, wb = self.expr(lvl + 1)
             w = wa or wb or 32
             if wa and wb and wa != wb and hit not in ("shl", "shr"): raise Unsupported("operands of different widths")
-            a = "(.bin .%s %d %s %s)" % (hit, (wa or wb or 32) if hit not in ("shl", "shr") else (wa or 32), a, b)
+            a = ("bin", hit, (wa or wb or 32) if hit not in ("shl", "shr") else (wa or 32), a, b)
             wa = None if hit in ("eq", "ne", "lt", "le", "gt", "ge", "land", "lor") else (wa if hit in ("shl", "shr") else w)
     def unary(self):
         e, w = self.atom()
@@ -85,13 +85,13 @@ class P:
             self.i += 1
             ty = self.eat("id")[1]
             if ty not in WIDTH: raise Unsupported("cast to " + ty)
-            w = WIDTH[ty]; e = "(.cast %d %s)" % (w, e)
+            w = WIDTH[ty]; e = ("cast", w, e)
         return e, w
     def atom(self):
         tok = self.peek()
         if tok[0] == "num":
             self.i += 1
-            return "(.lit %d)" % tok[1], (WIDTH.get(tok[2]) if tok[2] else None)
+            return ("lit", tok[1]), (WIDTH.get(tok[2]) if tok[2] else None)
         if tok == ("op", "("):
             self.i += 1; e, w = self.expr(); self.eat("op", ")"); return e, w
         if tok == ("op", "*"):               # dereference of a reference binding: same value
@@ -102,27 +102,27 @@ class P:
                 idx, w, fallible = CALLEES[name]
                 if fallible: raise Unsupported("fallible call in expression position: " + name)
                 self.i += 2; a, _ = self.expr(); self.eat("op", ")")
-                return "(.call %d %s)" % (idx, a), w
+                return ("call", idx, a), w
             if self.isop("(", 1) or "::" in name: raise Unsupported("call / path not in the fragment: " + name)
             self.i += 1
             idx = self.lookup(name)
-            return "(.var %d)" % idx, self.types[idx]
+            return ("var", idx), self.types[idx]
         raise Unsupported("unexpected token in expression: %s" % (tok,))
     # ---- results
     def ret(self):
         if self.isid("Err"):
-            self.i += 1; self.skip_parens(); return ".err"
+            self.i += 1; self.skip_parens(); return ("err",)
         if self.isid("Ok"):
             self.i += 1; self.eat("op", "(")
             if self.isid("None"):
-                self.i += 1; self.eat("op", ")"); return ".none"
+                self.i += 1; self.eat("op", ")"); return ("none",)
             if self.isid("u16::try_from"):
                 self.i += 1; self.eat("op", "("); e, _ = self.expr(); self.eat("op", ")"); self.eat("op", ".")
                 m = self.eat("id")[1]
                 if m == "unwrap_or":
                     self.eat("op", "("); z = self.eat("num"); self.eat("op", ")")
                     if z[1] != 0: raise Unsupported("unwrap_or of a non-zero value")
-                    self.eat("op", ")"); return "(.tryU16 %s true false)" % e
+                    self.eat("op", ")"); return ("tryU16", e, True, False)
                 if m != "ok": raise Unsupported("method ." + m)
                 self.eat("op", "("); self.eat("op", ")")
                 positive = False
@@ -133,9 +133,9 @@ class P:
                     y = self.eat("id")[1]; self.eat("op", ">"); z = self.eat("num"); self.eat("op", ")")
                     if x != y or z[1] != 0: raise Unsupported("filter closure is not `|&x| x > 0`")
                     positive = True
-                self.eat("op", ")"); return "(.tryU16 %s false %s)" % (e, "true" if positive else "false")
-            e, _ = self.expr(); self.eat("op", ")"); return "(.val %s)" % e
-        e, _ = self.expr(); return "(.val %s)" % e
+                self.eat("op", ")"); return ("tryU16", e, False, positive)
+            e, _ = self.expr(); self.eat("op", ")"); return ("val", e)
+        e, _ = self.expr(); return ("val", e)
     def skip_parens(self):
         self.eat("op", "("); depth = 1
         while depth:
@@ -176,9 +176,9 @@ class P:
                 return None
             e, w = self.expr(); self.eat("op", ";")
             idx = self.bind(name, WIDTH[ty] if ty else (w or 32))
-            return "(.assign %d %s)" % (idx, e)
+            return ("assign", idx, e)
         if self.isid("return"):
-            self.i += 1; r = self.ret(); self.eat("op", ";"); return "(.ret %s)" % r
+            self.i += 1; r = self.ret(); self.eat("op", ";"); return ("ret", r)
         if self.isid("if"): return self.ifstmt()
         tok = self.peek()
         if tok[0] == "id" and self.peek(1)[0] == "op" and self.peek(1)[1] in ("=", "|=", "^=", "&=", "+=", "-=", "*=", "<<=", ">>="):
@@ -187,12 +187,12 @@ class P:
             e, _ = self.expr(); self.eat("op", ";")
             if op != "=":
                 nm = {"|=": "bor", "^=": "bxor", "&=": "band", "+=": "add", "-=": "sub", "*=": "mul", "<<=": "shl", ">>=": "shr"}[op]
-                e = "(.bin .%s %d (.var %d) %s)" % (nm, w, idx, e)
-            return "(.assign %d %s)" % (idx, e)
+                e = ("bin", nm, w, ("var", idx), e)
+            return ("assign", idx, e)
         # tail expression = the value of the block
         r = self.ret()
         if self.isop(";"): raise Unsupported("expression statement")
-        return "(.ret %s)" % r
+        return ("ret", r)
     def ifstmt(self):
         self.eat("id", "if")
         if self.isid("let"):
@@ -206,18 +206,126 @@ class P:
             e = []
             if self.isid("else"):
                 self.i += 1; e = self.braced()
-            return "(.ifLetOk %d %d %s %s %s)" % (idx, CALLEES[f][0], a, blk(t), blk(e))
+            return ("ifletok", idx, CALLEES[f][0], a, clean(t), clean(e))
         c, _ = self.expr()
         t = self.braced(); e = []
         if self.isid("else"):
             self.i += 1
             e = [self.ifstmt()] if self.isid("if") else self.braced()
-        return "(.ite %s %s %s)" % (c, blk(t), blk(e))
+        return ("ite", c, clean(t), clean(e))
 
-def blk(stmts):
-    out = ".nil"
-    for s in reversed([s for s in stmts if s is not None]): out = "(.cons %s %s)" % (s, out)
-    return out
+def clean(stmts): return [x for x in stmts if x is not None]
+
+# ---------------------------------------------------------------- emitter: Lean definitions (shallow embedding)
+# Semantics written out by the emitter (the part of the translation that is trusted): unsigned integers as `Nat`; every `+ - *` and
+# shift carries a condition under which the Rust operation panics (`overflow-checks = true` in every profile); the conditions are
+# collected in the Boolean `bad`, threaded through the statements in execution order, and a function that returns while `bad` is set
+# yields `.panic`; `<<` keeps the low `w` bits, `as uN` truncates; `&&` / `||` evaluate (and so can panic in) their right operand only
+# when it is needed.
+FN_NAMES = {0: "decodeId13Src", 1: "modeAToCSrc"}
+BOOL_OPS = {"eq", "ne", "lt", "le", "gt", "ge", "land", "lor"}
+
+class Emit:
+    def __init__(self): self.tmp = 0
+    def v(self, i): return "v%d" % i
+    def expr(self, e):
+        """-> (lean text, [panic conditions as Bool texts], lets needed before) for a Nat-valued or Bool-valued expression"""
+        k = e[0]
+        if k == "lit": return str(e[1]), []
+        if k == "var": return self.v(e[1]), []
+        if k == "cast":
+            a, fa = self.expr(e[2]); return "(%s %% %d)" % (a, 1 << e[1]), fa
+        if k == "call":
+            a, fa = self.expr(e[2])
+            return "(numOf (%s %s))" % (FN_NAMES[e[1]], a), fa + ["(notNum (%s %s))" % (FN_NAMES[e[1]], a)]
+        op, w, x, y = e[1], e[2], e[3], e[4]
+        a, fa = self.expr(x); b, fb = self.expr(y)
+        if op == "land": return "(%s && %s)" % (a, b), fa + ["(%s && %s)" % (a, f) for f in fb]
+        if op == "lor": return "(%s || %s)" % (a, b), fa + ["(!%s && %s)" % (a, f) for f in fb]
+        f = fa + fb
+        if op == "band": return "(%s &&& %s)" % (a, b), f
+        if op == "bor": return "(%s ||| %s)" % (a, b), f
+        if op == "bxor": return "(%s ^^^ %s)" % (a, b), f
+        if op == "shl": return "((%s <<< %s) %% %d)" % (a, b, 1 << w), f + ["(Nat.ble %d %s)" % (w, b)]
+        if op == "shr": return "(%s >>> %s)" % (a, b), f + ["(Nat.ble %d %s)" % (w, b)]
+        if op == "add": return "(%s + %s)" % (a, b), f + ["(Nat.ble %d (%s + %s))" % (1 << w, a, b)]
+        if op == "mul": return "(%s * %s)" % (a, b), f + ["(Nat.ble %d (%s * %s))" % (1 << w, a, b)]
+        if op == "sub": return "(%s - %s)" % (a, b), f + ["(Nat.blt %s %s)" % (a, b)]
+        if op == "eq": return "(%s == %s)" % (a, b), f
+        if op == "ne": return "(%s != %s)" % (a, b), f
+        if op == "lt": return "(Nat.blt %s %s)" % (a, b), f
+        if op == "le": return "(Nat.ble %s %s)" % (a, b), f
+        if op == "gt": return "(Nat.blt %s %s)" % (b, a), f
+        if op == "ge": return "(Nat.ble %s %s)" % (b, a), f
+        raise Unsupported("operator " + op)
+    def isbool(self, e): return e[0] == "bin" and e[1] in BOOL_OPS
+    def badlet(self, flags, ind):
+        return "%slet bad := bad || %s\n" % (ind, " || ".join(flags)) if flags else ""
+    def returns(self, stmts):
+        if not stmts: return False
+        s = stmts[-1]
+        if s[0] == "ret": return True
+        if s[0] == "ite": return self.returns(s[2]) and self.returns(s[3])
+        if s[0] == "ifletok": return self.returns(s[4]) and self.returns(s[5])
+        return False
+    def ret(self, r, ind):
+        if r[0] == "err": return "%sif bad then .panic \"arithmetic overflow\" else .ok .err\n" % ind
+        if r[0] == "none": return "%sif bad then .panic \"arithmetic overflow\" else .ok .none\n" % ind
+        e, f = self.expr(r[1])
+        if self.isbool(r[1]): raise Unsupported("Boolean result")
+        out = self.badlet(f, ind)
+        if r[0] == "val": return out + "%sif bad then .panic \"arithmetic overflow\" else .ok (.num %s)\n" % (ind, e)
+        orzero, positive = r[2], r[3]
+        some = "(if %s == 0 then Val.none else Val.num %s)" % (e, e) if positive else "(Val.num %s)" % e
+        other = "(Val.num 0)" if orzero else "Val.none"
+        return out + "%sif bad then .panic \"arithmetic overflow\" else .ok (if Nat.blt %s 65536 then %s else %s)\n" % (ind, e, some, other)
+    def block(self, stmts, ind):
+        """a block all of whose paths return"""
+        if not stmts: raise Unsupported("a path of the function ends without a value")
+        s, rest = stmts[0], stmts[1:]
+        if s[0] == "assign":
+            e, f = self.expr(s[2])
+            if self.isbool(s[2]): raise Unsupported("Boolean variable")
+            # the overflow conditions speak about the operands' values *before* the assignment: they come first
+            return self.badlet(f, ind) + "%slet %s := %s\n" % (ind, self.v(s[1]), e) + self.block(rest, ind)
+        if s[0] == "ret":
+            if rest: raise Unsupported("statements after return")
+            return self.ret(s[1], ind)
+        if s[0] == "ite":
+            c, f = self.expr(s[1])
+            if not self.isbool(s[1]): raise Unsupported("condition is not Boolean")
+            out = self.badlet(f, ind)
+            t, e = s[2], s[3]
+            if self.returns(t) and self.returns(e):
+                if rest: raise Unsupported("unreachable statements")
+                return out + "%sif %s then\n%s%selse\n%s" % (ind, c, self.block(t, ind + "  "), ind, self.block(e, ind + "  "))
+            if self.returns(t): return out + "%sif %s then\n%s%selse\n%s" % (ind, c, self.block(t, ind + "  "), ind, self.block(e + rest, ind + "  "))
+            if self.returns(e): return out + "%sif %s then\n%s%selse\n%s" % (ind, c, self.block(t + rest, ind + "  "), ind, self.block(e, ind + "  "))
+            # both fall through: only plain assignments are handled, as conditional updates in program order
+            self.tmp += 1; cv = "c%d" % self.tmp
+            out += "%slet %s := %s\n" % (ind, cv, c)
+            for branch, taken in ((t, cv), (e, "!" + cv)):
+                for a in branch:
+                    if a[0] != "assign": raise Unsupported("control flow inside a branch that falls through")
+                    x, fx = self.expr(a[2])
+                    out += self.badlet(["(%s && %s)" % (taken, g) for g in fx], ind)
+                    out += "%slet %s := if %s then %s else %s\n" % (ind, self.v(a[1]), taken, x, self.v(a[1]))
+            return out + self.block(rest, ind)
+        if s[0] == "ifletok":
+            if rest or not (self.returns(s[4]) and self.returns(s[5])): raise Unsupported("if let that falls through")
+            a, f = self.expr(s[3])
+            out = self.badlet(f, ind)
+            out += "%smatch %s %s with\n" % (ind, FN_NAMES[s[2]], a)
+            out += "%s| .ok (.num %s) =>\n%s" % (ind, self.v(s[1]), self.block(s[4], ind + "  "))
+            out += "%s| .ok _ =>\n%s" % (ind, self.block(s[5], ind + "  "))
+            out += "%s| .err x => .err x\n%s| .panic p => .panic p\n" % (ind, ind)
+            return out
+        raise Unsupported("statement " + s[0])
+
+def emit_fn(lean_name, rust_name, stmts, doc):
+    em = Emit()
+    body = em.block(stmts, "  ")
+    return "/-- `%s`%s -/\ndef %s (v0 : Nat) : Res Val :=\n  let bad := false\n%s" % (rust_name, doc, lean_name, body)
 
 def fn_text(src, pattern):
     """text of the function whose header matches `pattern` (regex up to the opening brace), with its body by brace matching"""
@@ -235,9 +343,9 @@ def fn_text(src, pattern):
 def translate(src, pattern, argname=None, argwidth=32):
     head, body = fn_text(src, pattern)
     p = P(tokenize(body), argname, argwidth)
-    stmts = p.block()
+    stmts = clean(p.block())
     if p.peek()[0] != "eof": raise Unsupported("trailing tokens after the body")
-    return blk(stmts), p.input_bits
+    return stmts, p.input_bits
 
 def strip_comments(s):
     s = re.sub(r"/\*.*?\*/", "", s, flags=re.S)
@@ -248,23 +356,22 @@ def generate(read):
     modeac = strip_comments(read("libadsb_deku/src/mode_ac.rs")); lib = strip_comments(read("libadsb_deku/src/lib.rs"))
     items = []
     b, _ = translate(modeac, r"pub\(crate\) fn decode_id13_field\(id13_field: u32\) -> u32 \{", "id13_field", 32)
-    items.append(("decodeId13Fn", "decode_id13_field", b, None))
+    items.append(("decodeId13Src", "decode_id13_field", b, None))
     b, _ = translate(modeac, r"pub\(crate\) fn mode_a_to_mode_c\(mode_a: u32\) -> result::Result<u32, &'static str> \{", "mode_a", 32)
-    items.append(("modeAToCFn", "mode_a_to_mode_c", b, None))
+    items.append(("modeAToCSrc", "mode_a_to_mode_c", b, None))
     def reader(impl, lean_name):
         m = re.search(r"impl %s \{" % impl, lib)
         if not m: raise Unsupported("impl %s not found" % impl)
         b, bits = translate(lib[m.start():], r"fn read<R: Read \+ Seek>\(reader: &mut Reader<R>\) -> [^{]*\{")
         if bits is None: raise Unsupported("%s::read does not start with the reader call" % impl)
         items.append((lean_name, impl + "::read", b, bits))
-    reader("AC13Field", "ac13Fn"); reader("Altitude", "ac12Fn"); reader("IdentityCode", "identityFn")
-    out = ["import Adsb.MiniRust", "/-! GENERATED by /verif/tools/rust2lean.py (called from extract.py) from /repo on every run. Do not edit. -/",
-           "namespace Adsb.Gen", "open Adsb.MiniRust", ""]
+    reader("AC13Field", "ac13Src"); reader("Altitude", "ac12Src"); reader("IdentityCode", "identitySrc")
+    out = ["import Adsb.MiniRust", "/-! GENERATED by /verif/tools/rust2lean.py (called from extract.py) from /repo on every run. Do not edit.",
+           "Each definition is the body of the named Rust function, statement by statement; `bad` collects the overflow checks. -/",
+           "namespace Adsb.Gen", "open Adsb.MiniRust", "set_option linter.unusedVariables false", ""]
     for lean_name, rust_name, body, bits in items:
-        out.append("/-- `%s` -/" % rust_name)
-        out.append("def %s : Fn := { name := \"%s\", body :=\n  %s }" % (lean_name, rust_name, body))
-        if bits is not None: out.append("/-- width of the field `%s` reads -/\ndef %sBits : Nat := %d" % (rust_name, lean_name, bits))
-        out.append("")
+        out.append(emit_fn(lean_name, rust_name, body, "" if bits is None else " after its %d-bit read (`v0`)" % bits))
+        if bits is not None: out.append("/-- width of the field `%s` reads -/\ndef %sBits : Nat := %d\n" % (rust_name, lean_name, bits))
     out.append("end Adsb.Gen\n")
     return "\n".join(out)
 
